@@ -50,6 +50,12 @@ NOTES = {
     'C03-f': 'needs the sources=[...] form of with_store (several hot sources, each with its own pipeline, sharing one store): added as a C03 scenario with the protocol monitor on every boundary of every pipeline',
     'C09-f': 'NOT caught, deliberately: emit-before-persist in scan only shows under re-entrant delivery (a subscriber pushing the next item of the same key from inside its own on_next). That breaks the Rx contract that notifications are serialised; no property speaks about it, and the unchanged tree has other operators that are not re-entrant either',
     'C08-f': 'NOT caught, deliberately: needs a mux error raised inside the last tee_map branch that travels THROUGH the tee_map to a handler placed after it. C13 specifies handlers placed directly after the failing operator, C08 says nothing about errors (the unchanged tee_map forwards an upstream error once per branch)',
+    'C03-k': 'needs two store scopes chained on one multiplexed stream (multiplex(pipe(with_store(a, ...), with_store(b, ...)))): added as a C03 scenario (the generated pipeline is cut into two scopes at a seeded position)',
+    'C04-k': 'needs a key_mapper that is a callable object with a false truth value: every key function (group_by, split, distinct, distinct_until_changed) is now also generated wrapped in such an object - which showed that the unchanged distinct / distinct_until_changed had exactly this defect (fixed in b9dc046)',
+    'C13-k': 'needs the dead-letter observable to be subscribed after the data stream (before the first item): subscription order is a generated dimension of the router cases now',
+    'C16-k': 'needs a producer that reuses one mutable buffer for all chunks (memoryview of a bytearray overwritten after each on_next): added for compress and decompress',
+    'C17-k': 'needs a single chunk of exactly k MiB + 1 bytes: a long-text scenario cuts 2-3 MiB of encoded text into single chunks of 2**k - 1, 2**k, 2**k + 1 bytes for k = 16..21 (with and without a short leading chunk)',
+    'C19-k': 'caught by C17 (the change is in rxsci/data/codec.py: U+FEFF dropped at the start of every decoded chunk, not only the first); C19 would need U+FEFF in a string exactly at a 64 KiB read boundary',
     'C06-j': 'needs an impure split predicate (the change asks it twice on every item that opens a segment): a counting predicate with recorded answers added (as for group_by key mappers); the run model uses one answer per item',
     'C15-j': 'needs more than 4 MiB through one length-prefix subscription with a chunk ending inside a payload: a long-stream scenario (3-13 MiB in fixed-size chunks, items generated inside the check) added to both tiers',
     'C18-j': 'needs string fields whose values are instances of a subclass of str (a user class, numpy.str_): added',
